@@ -1,6 +1,47 @@
-//! round2 operations (stub; filled in by the area owner).
+//! C06: Round 2 (src/integral_basis/{mod,round2}.rs).  Same operations as ocaml/ops_round2.ml.
+//!
+//!   ib_find f [profile]   -> [basis disc index]  find_integral_basis(&Algebraic::new(f)): stored basis, its
+//!                                                discriminant, its index over non_monic_initial_order
+//!   ib_find_many [f ...]  -> [[basis disc index] ...]  the same on several polynomials
+//!   ib_one_step f O p     -> [basis howmany]     round2::one_step(&Algebraic::new(f), &O, &p)
+//! An order argument O names its constructor path as in ops/algorder.rs:
+//!   [basis M] Order::from_basis(M) | [nonmonic f] non_monic_initial_order | [triv f] trivial_order_monic
+use crate::ops::poly::zp;
 use crate::term::*;
+use rust_number_theory::algebraic::Algebraic;
+use rust_number_theory::integral_basis::find_integral_basis;
+use rust_number_theory::order::{self, Order};
 
-pub fn dispatch(_op: &str, _a: &[Term]) -> Option<Term> {
-    None
+fn ord(t: &Term) -> Order {
+    let l = t.list();
+    match (l[0].id(), l.len()) {
+        ("basis", 2) => Order::from_basis(&l[1].rmat()),
+        ("triv", 2) => order::trivial_order_monic(&Algebraic::new(zp(&l[1]))),
+        ("nonmonic", 2) => order::non_monic_initial_order(&Algebraic::new(zp(&l[1]))),
+        _ => panic!("harness: expected order constructor, got {t}"),
+    }
+}
+
+fn ib_find(f: &Term) -> Term {
+    let theta = Algebraic::new(zp(f));
+    let o = find_integral_basis(&theta);
+    let d = o.discriminant(&theta);
+    let o0 = order::non_monic_initial_order(&theta);
+    let i = order::index(&o, &o0);
+    tl(vec![trmat(&o.basis()), tb(&d), tb(&i)])
+}
+
+pub fn dispatch(op: &str, a: &[Term]) -> Option<Term> {
+    Some(match op {
+        "ib_find" => ib_find(&a[0]),
+        "ib_find_many" => tl(a[0].list().iter().map(ib_find).collect()),
+        // through the feature-gated access wrapper `integral_basis::verif::one_step` of /repo (module round2 is private)
+        "ib_one_step" => {
+            let theta = Algebraic::new(zp(&a[0]));
+            let o = ord(&a[1]);
+            let (no, howmany) = rust_number_theory::integral_basis::verif::one_step(&theta, &o, &a[2].int());
+            tl(vec![trmat(&no.basis()), ti(howmany)])
+        }
+        _ => return None,
+    })
 }
